@@ -182,3 +182,18 @@ def write_replay(prop_id, obj):
     path = os.path.join(d, "%s-%s.json" % (prop_id, h))
     json.dump(obj, open(path, "w"), indent=1, sort_keys=True)
     return path
+
+
+def state_stamp(parts):
+    """identifies (repo working tree, harness binary, args): a cached stream run is reused only if all are unchanged"""
+    h = hashlib.sha1()
+    h.update(sh(["git", "-C", REPO, "rev-parse", "HEAD"]).stdout.encode())
+    h.update(sh(["git", "-C", REPO, "status", "--porcelain"]).stdout.encode())
+    h.update(sh(["git", "-C", REPO, "diff"]).stdout.encode())
+    try:
+        st = os.stat(os.path.join(BIN, "vh"))
+        h.update(("%d %d" % (st.st_size, int(st.st_mtime))).encode())
+    except OSError:
+        pass
+    h.update("|".join(parts).encode())
+    return h.hexdigest()[:16]
